@@ -67,5 +67,165 @@ let run_keepalive path =
   Printf.printf "done cases=%d diffs=%d distinct=%d\n" !n !bad !distinct
 
 let () = register "keepalive" run_keepalive
-(* TMPSTUBS *)
-let () = L.iter (fun c -> register c (fun _ -> print_endline "done cases=0 diffs=0 distinct=0")) ["engine"; "dispatch"; "pkt"]
+(* ---------------------------------------------------------------- engine
+   eng <n> <limit> <delay> <timeout> <handler> | <ops> | <events> *)
+let ev_of_s (t : string) : Engine.ev =
+  match split ':' t with
+  | ["HC"; c] -> Engine.EHandleCall (n_of_string c)
+  | ["HR"; c; b] -> Engine.EHandleRet (n_of_string c, bool_of_s b)
+  | ["L"; c; v] -> Engine.ELimit (n_of_string c, z_of_string v)
+  | ["D"; c; v] -> Engine.EDelay (n_of_string c, z_of_string v)
+  | ["T"; c; v] -> Engine.ETimeout (n_of_string c, z_of_string v)
+  | ["CC"; c] -> Engine.ECClose (n_of_string c)
+  | ["R"; c] -> Engine.ERecv (n_of_string c)
+  | ["AC"; a] -> Engine.EAcceptCall (n_of_string a)
+  | ["AP"; a] -> Engine.EAcceptPanic (n_of_string a)
+  | ["SA"; a] -> Engine.ESrvAccept (n_of_string a)
+  | ["SC"; a; c] -> Engine.ESrvConn (n_of_string a, n_of_string c)
+  | ["SE"; a] -> Engine.ESrvErr (n_of_string a)
+  | ["OE"; a] -> Engine.EOnError (n_of_string a)
+  | ["XC"] -> Engine.ECloseCall
+  | ["XR"] -> Engine.ECloseRet
+  | ["Q"] -> Engine.EQuiet
+  | _ -> failwith ("bad engine event " ^ t)
+
+let clause_names = ["eng_no_start_after_close"; "eng_handle_after_close"; "eng_settings_before_receive";
+                    "eng_stops_at_error"; "eng_error_reported"; "eng_onerror_justified"]
+
+let rec split_bar (ws : string list) : string list list =
+  match ws with
+  | [] -> [[]]
+  | "|" :: t -> [] :: split_bar t
+  | w :: t -> (match split_bar t with h :: r -> (w :: h) :: r | [] -> [[w]])
+
+let run_engine path =
+  let n = ref 0 and bad = ref 0 in
+  let note, distinct = count_distinct () in
+  L.iter (fun line -> match words line with
+    | "eng" :: k :: lim :: d :: t :: h :: "|" :: rest ->
+      incr n;
+      let ops, evs = (match split_bar rest with [o; e] -> o, e | [o] -> o, [] | _ -> failwith "bad eng line") in
+      let g = { Engine.g_limit = z_of_string lim; Engine.g_delay = z_of_string d; Engine.g_timeout = z_of_string t;
+                Engine.g_handler = bool_of_s h } in
+      let es = L.map ev_of_s evs in
+      if L.exists (fun o -> o = "X" || o.[0] = 'A') ops then note (S.concat " " ops ^ h);
+      let clauses = Engine.engine_clauses g es in
+      let failed = L.filter_map (fun (nm, b) -> if b then None else Some nm) (L.combine clause_names clauses) in
+      (match failed with
+       | nm :: _ ->
+         incr bad;
+         Printf.printf "propfail %s eng,%s the observed trace violates the clause: %s\n" nm k (S.concat " " evs)
+       | [] ->
+         (match Engine.erun g Engine.e_init es with
+          | Some _ -> ()
+          | None ->
+            incr bad;
+            let i = int_of_nat (Engine.eaccepted g Engine.e_init es) in
+            Printf.printf "diff engine eng,%s monitor rejects event %d (%s) of: %s\n" k i (L.nth evs i) (S.concat " " evs)))
+    | _ -> ()) (read_lines path);
+  Printf.printf "done cases=%d diffs=%d distinct=%d\n" !n !bad !distinct
+
+let () = register "engine" run_engine
+
+(* ---------------------------------------------------------------- dispatch
+   dial <scheme> | r r r r      port <scheme> | cfg=<..> doc=<..>      launch <scheme> | <type> <tls> <rt>  or  <class> *)
+let kname = function Dispatch.KNet -> "net" | Dispatch.KTls -> "tls" | Dispatch.KWs -> "ws" | Dispatch.KWss -> "wss"
+let srvname = function Dispatch.KNet -> "tcp" | Dispatch.KTls -> "tls" | Dispatch.KWs -> "ws" | Dispatch.KWss -> "wss"
+let written_of_tok t = if t = "NOSCHEME" then None else Some (bytes_of_hex t)
+
+let run_dispatch path =
+  let n = ref 0 and bad = ref 0 and unobserved = ref 0 in
+  let note, distinct = count_distinct () in
+  let dialed = Hashtbl.create 256 in
+  let cfg4 = { Dispatch.p_tcp = Some (n_of_int 1); Dispatch.p_tls = Some (n_of_int 2);
+               Dispatch.p_ws = Some (n_of_int 3); Dispatch.p_wss = Some (n_of_int 4) } in
+  L.iter (fun line -> match words line with
+    | "dial" :: t :: "|" :: rs ->
+      incr n; note t;
+      let o = Dispatch.dial_outcome (written_of_tok t) in
+      let want = (match o with
+        | Dispatch.OParseError -> ["parse"; "parse"; "parse"; "parse"]
+        | Dispatch.OUnsupported -> ["unsupported"; "unsupported"; "unsupported"; "unsupported"]
+        | Dispatch.OKind k -> L.map (fun srv -> match Dispatch.reaches k srv with Some k' -> kname k' | None -> "fail") Dispatch.all_carriers) in
+      Hashtbl.replace dialed t rs;
+      if want <> rs then begin
+        incr bad;
+        (* the implementation's own observation: connections of two different kinds for one scheme *)
+        let ks = L.sort_uniq compare (L.filter (fun r -> L.mem r ["net"; "tls"; "ws"; "wss"]) rs) in
+        if L.length ks > 1 then
+          Printf.printf "propfail dsp_one_kind dial,%s one scheme produced connections of kinds %s\n" t (S.concat "," ks)
+        else Printf.printf "diff dial dial,%s model=%s impl=%s\n" t (S.concat " " want) (S.concat " " rs)
+      end
+    | ["port"; t; "|"; cfg; doc] ->
+      incr n;
+      let o = Dispatch.dial_outcome (written_of_tok t) in
+      let wcfg, wdoc = (match o with
+        | Dispatch.OParseError -> "parse", "parse"
+        | Dispatch.OUnsupported -> "unsupported", "unsupported"
+        | Dispatch.OKind k ->
+          (match int_of_n (Dispatch.default_port cfg4 k) with 1 -> "tcp" | 2 -> "tls" | 3 -> "ws" | 4 -> "wss" | _ -> "?"),
+          string_of_n (Dispatch.default_port Dispatch.no_ports k)) in
+      let doc' = S.sub doc 4 (S.length doc - 4) and cfg' = S.sub cfg 4 (S.length cfg - 4) in
+      if doc' = "unknown" then incr unobserved;
+      if cfg' <> wcfg || (doc' <> "unknown" && doc' <> wdoc) then begin
+        incr bad;
+        (match o with
+         | Dispatch.OKind _ when doc' <> "unknown" && doc' <> wdoc && L.for_all (fun ch -> ch >= '0' && ch <= '9') (L.of_seq (S.to_seq doc')) ->
+           Printf.printf "propfail dsp_default_port port,%s default port %s, documented %s\n" t doc' wdoc
+         | _ -> Printf.printf "diff port port,%s model=cfg=%s,doc=%s impl=%s,%s\n" t wcfg wdoc cfg doc)
+      end
+    | "launch" :: t :: "|" :: rs ->
+      incr n;
+      let o = Dispatch.launch_outcome (written_of_tok t) in
+      let want = (match o with
+        | Dispatch.OParseError -> ["parse"] | Dispatch.OUnsupported -> ["unsupported"]
+        | Dispatch.OKind k -> let (ws, tls) = Dispatch.server_shape k in [(if ws then "ws" else "net"); s_of_bool tls; "1"]) in
+      if want <> rs then begin
+        incr bad;
+        (* Dial and Launch disagreeing with each other on the same scheme is a failure by itself *)
+        let dial_class = (match Hashtbl.find_opt dialed t with
+          | Some ds -> if L.mem "unsupported" ds then "unsupported" else if L.mem "parse" ds then "parse" else "kind" | None -> "?") in
+        let launch_class = (match rs with [c] -> c | _ -> "kind") in
+        if dial_class <> "?" && dial_class <> launch_class && launch_class <> "fail" then
+          Printf.printf "propfail dsp_dial_launch_agree launch,%s Dial says %s, Launch says %s\n" t dial_class launch_class
+        else Printf.printf "diff launch launch,%s model=%s impl=%s\n" t (S.concat " " want) (S.concat " " rs)
+      end
+    | _ -> ()) (read_lines path);
+  Printf.printf "done cases=%d diffs=%d distinct=%d unobserved=%d\n" !n !bad !distinct !unobserved
+
+let () = register "dispatch" run_dispatch
+
+(* ---------------------------------------------------------------- pkt
+   pk type|qos|cc|id <n> | …        msg <topic> <payload> <qos> <retain> | <string> <equal> <fresh> <indep> *)
+let run_pkt path =
+  let n = ref 0 and bad = ref 0 and outside = ref 0 in
+  let note, distinct = count_distinct () in
+  let cmp kind k want got =
+    if want <> got then begin incr bad;
+      Printf.printf "diff pkt pk,%s,%s model=%s impl=%s\n" kind k (S.concat " " want) (S.concat " " got) end in
+  L.iter (fun line -> match words line with
+    | "pk" :: kind :: k :: "|" :: got ->
+      incr n; note (kind ^ k);
+      let v = n_of_string k in
+      (match kind with
+       | "type" -> cmp kind k [s_of_bool (PktMisc.type_valid v); hex_of_bytes (PktMisc.type_string v)] got
+       | "qos" -> cmp kind k [s_of_bool (PktMisc.qos_successful v)] got
+       | "cc" -> cmp kind k [s_of_bool (PktMisc.connack_valid v); hex_of_bytes (PktMisc.connack_string v)] got
+       | "id" -> cmp kind k [s_of_bool (PktMisc.id_valid v)] got
+       | _ -> failwith ("bad pk kind " ^ kind))
+    | ["msg"; t; p; q; r; "|"; str; equal; fresh; indep] ->
+      incr n; note (S.concat " " [t; p; q; r]);
+      let m = { Packet.m_topic = bytes_of_hex t; Packet.m_payload = bytes_of_hex p; Packet.m_qos = n_of_string q; Packet.m_retain = bool_of_s r } in
+      let id = S.concat "," [t; p; q; r] in
+      (* Copy: the model's copy is an equal message; the implementation reported the same about its own *)
+      if not (Packet.message_eqb (PktMisc.message_copy m) m) || equal <> "1" || fresh <> "1" || indep <> "1" then begin
+        incr bad;
+        Printf.printf "propfail pkt_copy_value %s Copy is not an independent equal value (equal=%s fresh=%s independent=%s)\n" id equal fresh indep end;
+      (match PktMisc.message_string m with
+       | None -> incr outside
+       | Some ms -> if hex_of_bytes ms <> str then begin incr bad;
+           Printf.printf "diff pkt msg,%s String model=%s impl=%s\n" id (hex_of_bytes ms) str end)
+    | _ -> ()) (read_lines path);
+  Printf.printf "done cases=%d diffs=%d distinct=%d outside=%d\n" !n !bad !distinct !outside
+
+let () = register "pkt" run_pkt
